@@ -96,7 +96,6 @@ flags: --slice-formula
 #include "mbuff.h"
 #include "src/mbuff.c"
 
-long w_len, w_size, w_c;
 
 #ifdef U_INDEX
 # if defined(U_SLACK)
